@@ -170,6 +170,23 @@ def lookup(qual: str) -> FuncInfo:
     return fi
 
 
+def materialize(fi: FuncInfo) -> Any:
+    """A callable for `fi`.  For a nested function (no function object exists outside a run of its enclosing function) the
+    FunctionDef node -- the same node the VCs are generated from -- is compiled in the real module globals.  A closure that
+    uses free variables of the enclosing function raises NameError when called (the callers treat that as 'no sample')."""
+    if fi.pyfunc is not None:
+        return fi.pyfunc
+    node = fi.node
+    mod = ast.Module(body=[node], type_ignores=[])
+    ast.fix_missing_locations(mod)
+    code = compile(mod, fi.file, "exec")
+    ns: Dict[str, Any] = {}
+    exec(code, fi.module.__dict__, ns)  # pylint: disable=exec-used
+    fn = ns[node.name]
+    fi.pyfunc_materialized = fn
+    return fn
+
+
 # ------------------------------------------------------------------------------------------------
 # class table / hierarchy numbering
 # ------------------------------------------------------------------------------------------------
